@@ -27,7 +27,7 @@ func init() {
 			StatesMean:  "distinct LineParser states by reflective dump (P) plus distinct dialogue prefixes (D); transitions = ParseMarkup / Next calls compared with the fresh result",
 			Assumptions: []string{"a parser whose dumped state is equal behaves equally (the dump covers every field reachable from the LineParser value)", "errors are compared as error / no error"},
 		},
-		QuickBudget: 70 * time.Second, ThoroughBudget: 12 * time.Minute, CrashIsViolation: true,
+		QuickBudget: 180 * time.Second, ThoroughBudget: 12 * time.Minute, CrashIsViolation: true,
 		Run: runC14,
 	})
 }
